@@ -140,6 +140,11 @@ func cnBad() []byte {
 	return h.Serialize()
 }
 
+// cnExpired counts bounded waits of this process that ran into their deadline (a message that never reached its
+// handler): each costs seconds, and a library under which that keeps happening has been found wanting many times
+// over, so after a number of them the remaining schedules are not run
+var cnExpired int
+
 // lateGate: the first request after a termination is made while finish() still holds the reader lock
 // (true) or well after the exit path has completed (false)
 var lateGate = true
@@ -247,6 +252,7 @@ func runCN(id int, c *cnCase, via string) cnLine {
 			}
 			time.Sleep(200 * time.Microsecond)
 		}
+		cnExpired++
 	}
 	hung := false
 	request := func() {
@@ -624,6 +630,9 @@ func CloseNotify(a Args) error {
 			return err
 		}
 		id++
+		if cnExpired >= 30 {
+			return nil // (the lines written so far carry the rejections)
+		}
 		via := "client"
 		if len(c.Sched) > 0 && (c.Sched[0] == "m" || c.Sched[0] == "mh" || c.Sched[0] == "mm") && id%2 == 0 {
 			via = "server"
